@@ -1,6 +1,7 @@
 package main
 
 import (
+	"time"
 	"encoding/json"
 	"fmt"
 	"sort"
@@ -101,7 +102,7 @@ func runGwHist(c *rig.Ctx, cs Case, m mode) int {
 		return v.flush(c, m)
 	}
 	ts := world()
-	g := newGateway(&rest.Config{Host: ts.URL, QPS: 10000, Burst: 10000}, func(string) []string { return []string{ts.URL} }, int(cs.ShardCount), eps)
+	g := newGateway(&rest.Config{Host: ts.URL, QPS: 10000, Burst: 10000, Timeout: 5 * time.Second}, func(string) []string { return []string{ts.URL} }, int(cs.ShardCount), eps)
 
 	// one look-up of every name; round < 0: before the first sync
 	look := func(round int, ml gwLook, n int64, srvLeaders map[int]string) {
